@@ -13,6 +13,7 @@ import (
 	"strings"
 	"time"
 
+	"github.com/bluenviron/mediacommon/v2/pkg/codecs/av1"
 	"github.com/bluenviron/mediacommon/v2/pkg/formats/fmp4"
 
 	"verifharness/m3u8x"
@@ -35,6 +36,10 @@ type E1Opts struct {
 	NoDecode      bool // skip media decoding (long histories of C04/C18 sample it instead)
 	DecodeEvery   int  // with NoDecode=false: decode every n-th completed segment (default 1)
 	OnPlaylist    func(stream, text string)
+	// Regularity enables the C19 oracle; the leading track must have the constant sample
+	// duration SampleTicks (in its clock).
+	Regularity  bool
+	SampleTicks int64
 }
 
 // E1Result is the outcome of one script.
@@ -106,6 +111,7 @@ type streamHist struct {
 	nextBase        map[int]int64 // expected BaseTime of the next fragment per track id
 	lastPartTarget  int64
 	lastHadNonFinal bool
+	nonFinalD       int64
 }
 
 var segRe = regexp.MustCompile(`^([0-9a-f]{12})_([a-z]+[0-9]*)_seg([0-9]+)\.(mp4|ts)$`)
@@ -495,7 +501,7 @@ func (e *e1) checkPlaylist(s string, x *m3u8x.XMedia, text string, final bool) {
 	allParts := []m3u8x.XPart{}
 	checkPartURI := func(p m3u8x.XPart) (uint64, bool) {
 		base, q := stripQuery(p.URI)
-		if strings.Contains(q, "_HLS_") {
+		if ll && strings.Contains(q, "_HLS_") {
 			bad("C06", "part URI %s carries a _HLS_ directive", p.URI)
 			return 0, false
 		}
@@ -552,11 +558,11 @@ func (e *e1) checkPlaylist(s string, x *m3u8x.XMedia, text string, final bool) {
 			continue
 		}
 		base, q := stripQuery(seg.URI)
-		if strings.Contains(q, "_HLS_") {
+		if ll && strings.Contains(q, "_HLS_") {
 			bad("C06", "segment URI %s carries a _HLS_ directive", seg.URI)
 			return
 		}
-		if !sameQuery(q, filterHLS(e.opt.Query)) {
+		if !sameQuery(q, filterHLS(e.opt.Query)) && !(!ll && sameQuery(q, e.opt.Query)) {
 			bad("C06", "segment URI %s does not carry the request's query %q", seg.URI, e.opt.Query)
 			return
 		}
@@ -753,6 +759,50 @@ func (e *e1) checkPlaylist(s string, x *m3u8x.XMedia, text string, final bool) {
 			bad("C06", "Low-Latency playlist does not announce CAN-BLOCK-RELOAD=YES")
 			return
 		}
+	}
+	// ---- C19: regular parts ----
+	if ll && e.opt.Regularity && s == cfg.LeadingStream() {
+		var nonFinal []m3u8x.XPart
+		for _, seg := range x.Segments {
+			if len(seg.Parts) > 1 {
+				nonFinal = append(nonFinal, seg.Parts[:len(seg.Parts)-1]...)
+			}
+		}
+		nonFinal = append(nonFinal, x.Parts...)
+		rate := int64(cfg.Tracks[cfg.LeadingTrack()].ClockRate())
+		sampleNS := e.opt.SampleTicks * 1_000_000_000 / rate
+		pt := *x.PartTargetNS
+		for _, p := range nonFinal {
+			res.NonFinalParts++
+			d := p.DurationNS
+			if h.nonFinalD == 0 {
+				h.nonFinalD = d
+			}
+			if absI(d-h.nonFinalD) > 10_000 {
+				bad("C19", "non-final part %s lasts %s, earlier non-final parts lasted %d ns (constant sample duration %d ticks)", p.URI, p.DurText, h.nonFinalD, e.opt.SampleTicks)
+				return
+			}
+			if d > pt+10_000 || float64(d)+10_000 < 0.85*float64(pt) {
+				bad("C19", "non-final part %s lasts %s, outside 85%%..100%% of PART-TARGET %s", p.URI, p.DurText, x.PartTargetTxt)
+				return
+			}
+			if d+10_000 < cfg.PartMinDuration {
+				bad("C19", "non-final part %s lasts %s, less than PartMinDuration %d ns", p.URI, p.DurText, cfg.PartMinDuration)
+				return
+			}
+			if lim := 2*maxI64(cfg.PartMinDuration, sampleNS) + sampleNS; d-10_000 >= lim {
+				bad("C19", "non-final part %s lasts %s, not less than 2*max(PartMinDuration, sample) + sample = %d ns", p.URI, p.DurText, lim)
+				return
+			}
+		}
+		if len(nonFinal) > 0 {
+			if h.lastHadNonFinal && h.lastPartTarget != pt {
+				bad("C19", "PART-TARGET changed from %d to %d ns between two playlists that both list a non-final part", h.lastPartTarget, pt)
+				return
+			}
+			h.lastPartTarget = pt
+		}
+		h.lastHadNonFinal = len(nonFinal) > 0
 	}
 	// ---- C03: target duration never decreases ----
 	if *x.Target < h.lastTarget {
@@ -1072,7 +1122,7 @@ func (e *e1) checkPartMedia(s string, p m3u8x.XPart, n uint64, pf *fetched, last
 func (e *e1) checkInit(s, mapURI string, bad func(string, string, ...any)) bool {
 	cfg := e.cfg
 	base, q := stripQuery(mapURI)
-	if strings.Contains(q, "_HLS_") {
+	if e.cfg.Variant == VariantLL && strings.Contains(q, "_HLS_") {
 		bad("C06", "EXT-X-MAP URI %s carries a _HLS_ directive", mapURI)
 		return false
 	}
@@ -1144,11 +1194,27 @@ func paramSetOfInit(c fmp4.Codec) ParamSet {
 	case *fmp4.CodecH265:
 		return ParamSet{A: c.VPS, B: c.SPS, C: c.PPS}
 	case *fmp4.CodecAV1:
-		return ParamSet{A: c.SequenceHeader}
+		return ParamSet{A: normAV1(c.SequenceHeader)}
 	case *fmp4.CodecVP9:
 		return ParamSet{VP9: VP9Params{Width: c.Width, Height: c.Height, ColorRange: c.ColorRange}}
 	}
 	return ParamSet{}
+}
+
+// normAV1 brings an OBU to the form with a size field (the container stores it that way).
+func normAV1(obu []byte) []byte {
+	b, err := av1.Bitstream([][]byte{obu}).Marshal()
+	if err != nil {
+		return obu
+	}
+	return b
+}
+
+func normParams(codec string, p ParamSet) ParamSet {
+	if codec == "av1" {
+		p.A = normAV1(p.A)
+	}
+	return p
 }
 
 // checkInitParams: once the first complete segment encoded with changed parameters is listed
@@ -1158,7 +1224,7 @@ func (e *e1) checkInitParams(ti int, c fmp4.Codec, bad func(string, string, ...a
 	model := e.model
 	codec := e.cfg.Tracks[ti].Codec
 	got := paramSetOfInit(c)
-	cur := model.CurrentParams(ti)
+	cur := normParams(codec, model.CurrentParams(ti))
 	// is there a completed segment opened at the current parameter version (or no change at all)?
 	settled := model.ParamVer == 0
 	if !settled {
@@ -1177,11 +1243,11 @@ func (e *e1) checkInitParams(ti int, c fmp4.Codec, bad func(string, string, ...a
 		return true
 	}
 	// unsettled: must be one of the sets seen so far (initial or any logged change)
-	if !paramsDiffer(codec, got, ParamsOf(codec, e.cfg.Tracks[ti].Params)) {
+	if !paramsDiffer(codec, got, normParams(codec, ParamsOf(codec, e.cfg.Tracks[ti].Params))) {
 		return true
 	}
 	for _, ev := range model.ParamLog {
-		if ev.Track == ti && !paramsDiffer(codec, got, ev.Set) {
+		if ev.Track == ti && !paramsDiffer(codec, got, normParams(codec, ev.Set)) {
 			return true
 		}
 	}
